@@ -14,11 +14,11 @@ CFG = {'assumptions': [],
               'the correspondence sessions only',
  'model_targets': ['Egg/Rules.vo'],
  'proof_targets': ['Props/C13.vo'],
- 'theorem_backed': 'subsume flag is OR under merge (translated combine_subsumed), sticky through any insert '
+ 'theorem_backed': 'regenerated source facts: the frontend constrains every rule-body table atom to non-subsumed rows (= the model matcher filter) and the extractor scans are guarded by !row.subsumed; subsume flag is OR under merge (translated combine_subsumed), sticky through any insert '
                    'sequence and through rebuild in either order; rule matching never sees subsumed rows at '
                    'any nesting depth; eval (check) and rebuild (congruence) ignore the flag; subsume/delete '
                    'frames',
- 'tier_a': ['UFSeq', 'MergeArms', 'BridgeFns'],
+ 'tier_a': ['UFSeq', 'MergeArms', 'BridgeFns', 'Facts.subsume_guards'],
  'trusted': ['translator /verif/translator: gen/UFSeq.v (union-find), gen/MergeArms.v (UnionId=min, Old, '
              'New), gen/BridgeFns.v (combine_subsumed) are regenerated from the source on every run and used '
              'by Egg/Model.v',
